@@ -22,7 +22,7 @@ import (
 type C19 struct{}
 
 var c19Cmds = []string{"canary-pause", "canary-unpause", "canary-validate", "canary-fail", "pause-rolling-update", "unpause-rolling-update", "freeze-rollout", "unfreeze-rollout"}
-var c19States = []string{"no-canary", "canary-running", "canary-on-a-formerly-active-replicaset", "auto-paused", "auto-paused-by-restarts", "user-paused", "failed", "mid-rolling-update", "canary-before-first-pod", "user-paused-before-first-pod"}
+var c19States = []string{"no-canary", "canary-running", "canary-on-a-formerly-active-replicaset", "auto-paused", "auto-paused-by-restarts", "user-paused", "failed", "mid-rolling-update", "canary-before-first-pod", "user-paused-before-first-pod", "rollout-frozen", "rolling-update-paused"}
 
 func (e *C19) Name() string { return "sim.c19" }
 func (e *C19) Rule() string {
@@ -170,6 +170,19 @@ func (e *C19) prepare(w *World, state string) bool {
 	}
 	switch state {
 	case "no-canary":
+	case "rollout-frozen", "rolling-update-paused":
+		// no canary in flight (the strategy has a canary block) and a hold that status.state already reflects
+		cmd := map[string]string{"rollout-frozen": "freeze-rollout", "rolling-update-paused": "pause-rolling-update"}[state]
+		if err := w.Kubectl(cmd, c19NS, c19Name); err != nil {
+			return false
+		}
+		for i := 0; i < 3; i++ {
+			w.Round(2 * time.Second)
+		}
+		want := map[string]v1.ExtendedDaemonSetStatusState{"rollout-frozen": v1.ExtendedDaemonSetStatusStateRolloutFrozen, "rolling-update-paused": v1.ExtendedDaemonSetStatusStateRollingUpdatePaused}[state]
+		if e := kit.GetEDS(w.S, c19NS, c19Name); e == nil || e.Status.State != want {
+			return false
+		}
 	case "canary-running":
 		w.SetTemplate(c19NS, c19Name, kit.Tpl("B"))
 		if !canaryUp(6) {
